@@ -12,6 +12,11 @@
 (C) E2: ensembles (Lattice (2,2) / (2,1), Buckshot 3; nested NM / Powell): every member order per map call, sharing
     and copying map, Solve() vs Solve(step=True) vs a manual Step loop, and real threads under the baton scheduler
     of mc/c07_baton.py (hand-off at every member Step, bounded preemptions); oracle: one result per configuration.
+    Under the serial map four drive modes (Solve, Solve(step=True), Step-until-message, while not Terminated(): Step())
+    are compared in result, member counters, monitors and call logs, incl. ensembles without limits, with a member that
+    stops at generation 0, and ensembles whose start points come from the python random stream (Sparsity, Lattice(int)).
+(D) instance isolation: configuration A alone in a fresh process vs "another solver B (one setting different, same
+    bounds and seed) configured and run first, then A" in one process; A must not depend on B.
 """
 import os, sys, io, itertools, contextlib, tempfile, math
 import numpy as np
@@ -942,15 +947,15 @@ def _stop_kinds(ref):
 # still pristine parent (before the parent itself has built any solver), so "alone" really is alone.
 def iso_base(ctx):
     # the optimum of the cost lies outside the box: every solver keeps pushing candidates across the faces
-    return {'name': 'D0', 'cost': 'sphere', 'init': 'point', 'x0': [-2.0, -1.0], 'box': 'neg', 'clip': True, 'con': None, 'pen': 'quad',
-            'term': 'never', 'limits': [4, None], 'seed': 301 + 3 * ctx.seed}
+    return {'name': 'D0', 'cost': 'sphere', 'init': 'point', 'x0': [-0.6, -0.55], 'box': 'neg', 'clip': True, 'con': None, 'pen': 'const',
+            'term': 'never', 'limits': [5, None], 'seed': 301 + 3 * ctx.seed}
 
 
 ISO_SETTINGS = [   # (setting, value in A, value in B): A and B differ in this one setting only (same bounds, same seed)
     ('clip', True, False), ('clip', False, True), ('clip', True, None), ('clip', None, True), ('clip', False, None), ('clip', None, False),
     ('tight', True, None), ('tight', None, True),
     ('con', None, 'tie/pure'), ('con', 'tie/pure', None),
-    ('pen', 'quad', None), ('pen', None, 'quad'),
+    ('pen', 'const', None), ('pen', None, 'const'),
     ('term', 'never', 'cog1'), ('term', 'cog1', 'never'),
 ]
 ISO_OTHER_CLASS = {'NM': 'DE2', 'Powell': 'NM', 'DE': 'Powell', 'DE2': 'DE'}
@@ -961,7 +966,10 @@ def _iso_variant(base, solver, setting, value):
     if setting == 'tight':
         v['clip'] = None        # SetStrictRanges rejects clip together with tight=False; tight is varied on the default clip
     v[setting] = value
-    v['nsteps'] = 5
+    v['nsteps'] = 6
+    if solver.startswith('DE'):     # a population spread over the whole box: difference vectors carry trials across the faces
+        v['init'] = 'random'
+        v['initbox'] = v['box']
     return v
 
 
@@ -1027,7 +1035,7 @@ def part_isolation(ctx, T, scenarios=None):
         setting = setting[0] if setting else '?'
         T.count('D_pairs')
         T.nontriv(('D', key, B['solver'], setting, repr(B.get(setting))))
-        T.hist('D_B_alone_behaves_differently_from_A', '%s:%s' % (setting, 'yes' if r['b_traj'] != ref['traj'] else 'no'))
+        T.hist('D_B_alone_behaves_differently_from_A', '%s/%s=%r vs %r:%s' % (A['solver'], setting, A.get(setting), B.get(setting), 'yes' if r['b_traj'] != ref['traj'] else 'no'))
         bad = []
         if r['canon'] != ref['canon']:
             field, text = _first_canon_diff(r['raw_canon'], ref['raw_canon'])
